@@ -1137,13 +1137,27 @@ fn parse_circuit_inputs<'a>(
                 .ok_or(SpecializationError::UnsupportedGenericArg)?;
             assert!(inputs.insert(idx, ty).is_none());
         } else {
-            // generic_id must be a gate. This was validated in `validate_output_tuple`.
-            stack.extend(
-                long_id
-                    .generic_args
-                    .iter()
-                    .map(|generic_arg| extract_matches!(generic_arg, GenericArg::Type).clone()),
-            );
+            // The info of an inner type may come from its declaration alone (it was not necessarily
+            // specialized yet), so its shape is validated here: it must be a gate with the right
+            // number of inputs, all of them types.
+            let expected_inputs = if long_id.generic_id == InverseGate::ID {
+                1
+            } else if long_id.generic_id == AddModGate::ID
+                || long_id.generic_id == SubModGate::ID
+                || long_id.generic_id == MulModGate::ID
+            {
+                2
+            } else {
+                return Err(SpecializationError::UnsupportedGenericArg);
+            };
+            require(long_id.generic_args.len() == expected_inputs)
+                .ok_or(SpecializationError::UnsupportedGenericArg)?;
+            for generic_arg in &long_id.generic_args {
+                let GenericArg::Type(input_ty) = generic_arg else {
+                    return Err(SpecializationError::UnsupportedGenericArg);
+                };
+                stack.push(input_ty.clone());
+            }
         }
     }
 
